@@ -84,11 +84,13 @@ func (v sv) String() string {
 	return "?"
 }
 
-func symV(name string) sv  { return sv{k: svSym, s: name} }
-func intV(i int64) sv      { return sv{k: svInt, i: i} }
-func boolV(b bool) sv      { return sv{k: svBool, b: b} }
-func (v sv) isConst() bool { return v.k == svInt || v.k == svBool || v.k == svFloat || v.k == svString || v.k == svNil }
-func (v sv) known() bool   { return v.k != svUnknown }
+func symV(name string) sv { return sv{k: svSym, s: name} }
+func intV(i int64) sv     { return sv{k: svInt, i: i} }
+func boolV(b bool) sv     { return sv{k: svBool, b: b} }
+func (v sv) isConst() bool {
+	return v.k == svInt || v.k == svBool || v.k == svFloat || v.k == svString || v.k == svNil
+}
+func (v sv) known() bool { return v.k != svUnknown }
 
 type ssaEffect struct {
 	ins  ssa.Instruction
